@@ -93,12 +93,39 @@ func (en *Engine) checkProperty(id, tier, verif, workdir string, t0 time.Time) i
 			ps = &props[i]
 		}
 	}
+	if ps == nil && id == "ALL" {
+		// selftest only (selftest/benign.sh): every unit, scan, lemma and always-bounded check of every property, once.
+		// An obligation's outcome does not depend on the property it is counted under, so a behaviour-preserving edit that is
+		// quiet here is quiet under each property.
+		all := PropSpec{ID: "ALL", Replay: "rw-samples"}
+		seen := map[string]bool{}
+		add := func(dst *[]string, xs []string, kind string) {
+			for _, x := range xs {
+				if !seen[kind+x] {
+					seen[kind+x] = true
+					*dst = append(*dst, x)
+				}
+			}
+		}
+		for i := range props {
+			add(&all.Units, props[i].Units, "u")
+			add(&all.Scans, props[i].Scans, "s")
+			add(&all.Lemmas, props[i].Lemmas, "l")
+			add(&all.AlwaysBounded, props[i].AlwaysBounded, "b")
+		}
+		ps = &all
+	}
 	if ps == nil {
 		fmt.Fprintln(os.Stderr, "no such property in propmap.json:", id)
 		return 2
 	}
 	var known []KnownFinding
 	_ = loadJSON(filepath.Join(verif, "known_findings.json"), &known)
+	if id == "ALL" {
+		for i := range known {
+			known[i].Property = "ALL"
+		}
+	}
 
 	timeout := 10
 	agree := false
